@@ -5,6 +5,7 @@ import random
 
 from harness import projgen, tlc
 from harness.checks import scan_common as sc
+from harness.checks import wild_common as wc
 from harness.result import CheckResult
 
 ASSUMPTIONS = [
@@ -79,6 +80,9 @@ def run(ctx):
     for _ in range(n_rand):
         p = projgen.random_project(rng, max_depth=rng.choice([2, 3, 4]), positions=False, n_stmts=rng.randint(4, 30))
         specs.append(episode_for(p, rng, 6))
+    # real source trees found on this machine (harness/wild.py), abstracted independently of pytestarch
+    wspecs, wtrees = wc.specs(ctx, random.Random(ctx.seed * 7919 + 100), "C10")
+    specs += wspecs
     tr, episodes, fails = sc.run_and_validate(specs)
     st = sc.stats(episodes)
     with_ext = sum(1 for ep in episodes for e in ep if e["k"] == "scan" and e["ext"] and e["out"] == "ok"
@@ -86,7 +90,7 @@ def run(ctx):
     dropped = sum(1 for ep in episodes for e in ep if e["k"] == "scan" and e["extexcl"]["kind"] != "none")
     if not st["law_instances"].get("internal") or not with_ext or not dropped:
         raise tlc.MachineryError(f"vacuous run: {st}")
-    cov = {"states": mc.distinct + tr.states, "transitions": mc.generated + tr.transitions,
+    cov = {"real_source_trees": wtrees, "states": mc.distinct + tr.states, "transitions": mc.generated + tr.transitions,
            "model_states": mc.distinct, "model_transitions": mc.generated,
            "traces_validated_against_impl": len(episodes), "trace_events": tr.events,
            "scans_with_external_modules": with_ext, "scans_with_external_exclusions": dropped,
